@@ -112,9 +112,31 @@ func randSp() ext {
 
 // an ID related to e: ancestor, descendant, sibling, neighbour, or the same
 func relative(e ext) ext {
-	switch rng.Intn(6) {
+	switch rng.Intn(7) {
 	case 0:
 		return e
+	case 6: // textual relative: same zooms, one component whose decimal text extends or truncates the other's (3 ↔ 31, 12 ↔ 1):
+		// an ID is its five numbers, never a prefix of its text
+		r := e
+		ext10 := func(v int64) int64 {
+			if rng.Intn(2) == 0 {
+				return v / 10
+			}
+			return v*10 + int64(rng.Intn(10))
+		}
+		switch rng.Intn(3) {
+		case 0:
+			r.x = ext10(r.x)
+		case 1:
+			r.y = ext10(r.y)
+		default:
+			if r.f < 0 {
+				r.f = -ext10(-r.f)
+			} else {
+				r.f = ext10(r.f)
+			}
+		}
+		return clampExt(r)
 	case 1: // ancestor (per axis independent)
 		dh, dv := int64(rng.Intn(4)), int64(rng.Intn(4))
 		if dh > e.h {
